@@ -23,6 +23,7 @@
 #include "ascon-masked-state.h"
 #include "ascon-masked-backend.h"
 #include "core/ascon-util.h"
+#include "core/ascon-verif.h"
 
 #if defined(ASCON_MASKED_X4_BACKEND_C64) && ASCON_MASKED_MAX_SHARES >= 4
 
@@ -141,7 +142,10 @@ void ascon_x4_permute
     x2_a = ~x2_a;
 
     /* Perform all encryption rounds */
-    while (first_round < 12) {
+    while (first_round < 12)
+    ASCON_VERIF_LOOP(permute_x4_c64)
+    {
+        ASCON_VERIF_GHOST(permute_x4_c64_top)
         /* Add the inverted round constant to x2 */
         x2_a ^= RC[first_round++];
 
@@ -232,6 +236,7 @@ void ascon_x4_permute
         t0_a = rightRotate13_64(t0_a);
         t0_b = rightRotate29_64(t0_b);
         t0_c = rightRotate59_64(t0_c);
+        ASCON_VERIF_GHOST(permute_x4_c64_bottom)
     }
 
     /* Return the final randomness to the caller to preserve it */
